@@ -1,5 +1,6 @@
 import Tup.DrvUtil
 import Tup.Model.Upload
+import Tup.Spec.Store
 /-! Driver for the end-to-end group (C09, C08). -/
 namespace Tup.Drv.E2e
 open Tup
@@ -7,6 +8,14 @@ open Tup
 def parseNats (s : String) : List Nat := if s = "-" then [] else (s.splitOn ",").filterMap String.toNat?
 
 def showSt (st : UpSt) : String := s!"{st.ioDone} {st.bytes} {st.flushedBytes} {boolStr st.marked}"
+
+/-- arrival log on the wire, newest first: `id:token:rows:cols:size:time,…` or `-` -/
+def parseLog (t : String) : Option (List Spec.Arrival) :=
+  if t = "-" then some []
+  else (t.splitOn ",").mapM fun e => match e.splitOn ":" with
+    | [i, tok, r, c, sz, tm] => do
+        pure { id := ← i.toNat?, token := tok, rows := ← r.toNat?, cols := ← c.toNat?, size := ← sz.toNat?, time := ← tm.toNat? }
+    | _ => none
 
 def handle : List String → String
   -- upload <chunk lengths> <fault: - | at:kind:after>   kind ∈ io|died
@@ -23,6 +32,16 @@ def handle : List String → String
       | .ok st => s!"ok {showSt st} {(sendCalls cs).length}"
       | .error (.ioError, st) => s!"ioerror {showSt st} {(sendCalls cs).length}"
       | .error (.died, st) => s!"died {showSt st} {(sendCalls cs).length}"
+  -- printok <maxUploads> <maxBytes> <maxAge> <id> <token> <rows> <cols> <now> <log>
+  | ["printok", mu, mb, ma, x, tok, r, c, now, log] =>
+      match mu.toNat?, mb.toNat?, ma.toNat?, x.toNat?, r.toNat?, c.toNat?, now.toNat?, parseLog log with
+      | some mu, some mb, some ma, some x, some r, some c, some now, some l =>
+          let thr : Spec.Thresholds := ⟨mu, mb, ma⟩
+          let sh := match Spec.shows thr l x now with
+            | some a => s!"{a.token}:{a.rows}:{a.cols}"
+            | none => "none"
+          s!"{boolStr (Spec.printOk thr l x tok r c now)} {sh}"
+      | _, _, _, _, _, _, _, _ => "bad"
   | _ => "bad"
 
 end Tup.Drv.E2e
